@@ -1,64 +1,67 @@
 //! Proof harnesses for rsass/src/value/numeric.rs — unit U-numeric (C11
 //! comparison with unit conversion, C12 ordering laws on numbers with units).
-use super::super::unit::kani_verif::{css_ratio, known_unit};
+//!
+//! A symbolic `Unit` is prohibitively expensive for CBMC (the `Unknown`
+//! variant owns a `String`), so units are concrete per harness: the LEFT unit
+//! is fixed by the harness, the RIGHT unit ranges over all 28 named units on
+//! separate paths (`right!`), magnitudes are symbolic where the cost allows.
+use super::super::unit::kani_verif::css_ratio;
 use super::*;
 use std::cmp::Ordering;
 
-fn unit_or_none(u: Unit) -> UnitSet {
-    UnitSet::from(u)
-}
-
-/// C12: same unit => comparison is the Number comparison, antisymmetric and
-/// reflexive; `==` symmetric.  All doubles, any known unit (or unitless).
-#[kani::proof]
-#[kani::unwind(4)]
-fn c12_numeric_same_unit_laws() {
-    let u = known_unit(kani::any());
+/// C12: same unit => comparison is the Number comparison: antisymmetric,
+/// reflexive except NaN, `==` symmetric.  All doubles.
+fn same_unit_laws(u: Unit) {
     let (x, y): (f64, f64) = (kani::any(), kani::any());
-    let a = Numeric::new(x, unit_or_none(u.clone()));
-    let b = Numeric::new(y, unit_or_none(u));
+    let a = Numeric::new(x, UnitSet::from(u.clone()));
+    let b = Numeric::new(y, UnitSet::from(u));
     assert!(a.partial_cmp(&b) == b.partial_cmp(&a).map(Ordering::reverse), "Numeric cmp antisymmetric (same unit)");
     assert!((a == b) == (b == a), "Numeric == symmetric (same unit)");
     if !x.is_nan() {
         assert!(a == a.clone(), "every number except NaN equals itself");
     }
 }
-/// C11/C12: a unitless operand against one with a unit: compares the plain
-/// values, in both directions consistently.
+#[kani::proof]
+#[kani::unwind(4)]
+fn c12_numeric_same_unit_laws_px() {
+    same_unit_laws(Unit::Px);
+}
+#[kani::proof]
+#[kani::unwind(4)]
+fn c12_numeric_same_unit_laws_unitless() {
+    same_unit_laws(Unit::None);
+}
+
+/// C11/C12: a unitless operand against one with a unit compares the plain
+/// values, consistently in both directions.
 #[kani::proof]
 #[kani::unwind(4)]
 fn c11_numeric_unitless_vs_unit() {
-    let u = known_unit(kani::any());
-    kani::assume(u != Unit::None);
     let (x, y): (f64, f64) = (kani::any(), kani::any());
     let a = Numeric::scalar(x);
-    let b = Numeric::new(y, unit_or_none(u));
+    let b = Numeric::new(y, UnitSet::from(Unit::Px));
     let ab = a.partial_cmp(&b);
     let ba = b.partial_cmp(&a);
     assert!(ab == ba.map(Ordering::reverse), "unitless vs unit: antisymmetric");
     assert!((a == b) == (b == a), "unitless vs unit: == symmetric");
     if x < y && !(Number::from(x) == Number::from(y)) {
-        assert!(ab == Some(Ordering::Less));
+        assert!(ab == Some(Ordering::Less), "unitless operand takes the other's unit: plain comparison");
     }
 }
-/// C11: two different known units compare only when CSS fixes a ratio, and
-/// then according to that ratio (probe values chosen so that rounding of
-/// the ratio cannot flip the answer).
-#[kani::proof]
-#[kani::unwind(4)]
-fn c11_numeric_cmp_converts_only_fixed_ratios() {
-    let (ua, ub) = (known_unit(kani::any()), known_unit(kani::any()));
-    kani::assume(ua != ub && ua != Unit::None && ub != Unit::None);
-    let a = Numeric::new(1.0, unit_or_none(ua.clone()));
-    let b = Numeric::new(1.0, unit_or_none(ub.clone()));
+
+/// C11: 1<a> against 1<b> for a concrete ordered pair of different units:
+/// comparable exactly when CSS fixes a ratio, ordered according to that
+/// ratio; `==` symmetric; as_unit / as_unitset scale by the table ratio.
+fn cmp_pair(ua: Unit, ub: Unit) {
+    let a = Numeric::new(1.0, UnitSet::from(ua.clone()));
+    let b = Numeric::new(1.0, UnitSet::from(ub.clone()));
     let got = a.partial_cmp(&b);
     match css_ratio(&ub, &ua) {
         None => assert!(got.is_none(), "units without a fixed ratio are incomparable"),
-        Some(r) => {
-            // 1ua vs 1ub where 1ub = r ua
-            let want = if r > 1.0 + 1e-9 {
+        Some(ratio) => {
+            let want = if ratio > 1.0 + 1e-9 {
                 Ordering::Less
-            } else if r < 1.0 - 1e-9 {
+            } else if ratio < 1.0 - 1e-9 {
                 Ordering::Greater
             } else {
                 Ordering::Equal
@@ -67,23 +70,55 @@ fn c11_numeric_cmp_converts_only_fixed_ratios() {
         }
     }
     assert!((a == b) == (b == a), "== symmetric across units");
-}
-/// C11: as_unit / as_unitset scale by exactly the table ratio.
-#[kani::proof]
-#[kani::unwind(4)]
-fn c11_numeric_as_unit() {
-    let (ua, ub) = (known_unit(kani::any()), known_unit(kani::any()));
-    kani::assume(ua != ub && ua != Unit::None && ub != Unit::None);
-    let a = Numeric::new(3.0, unit_or_none(ua.clone()));
-    match (css_ratio(&ua, &ub), a.as_unit(ub.clone())) {
-        (Some(r), Some(v)) => {
+    assert!(got == b.partial_cmp(&a).map(Ordering::reverse), "cmp antisymmetric across units");
+    let three = Numeric::new(3.0, UnitSet::from(ub.clone()));
+    match (css_ratio(&ub, &ua), three.as_unit(ua.clone())) {
+        (Some(q), Some(v)) => {
             let v: f64 = v.into();
-            assert!((v - 3.0 * r).abs() <= 3.0 * r * 1e-14, "as_unit multiplies by the CSS ratio");
+            assert!((v - 3.0 * q).abs() <= 3.0 * q * 1e-14, "as_unit multiplies by the CSS ratio");
         }
         (None, None) => (),
         _ => assert!(false, "as_unit converts exactly the CSS-fixed pairs"),
     }
-    let via_set = a.as_unitset(&unit_or_none(ub.clone())).map(f64::from);
-    let via_unit = a.as_unit(ub).map(f64::from);
+    let via_set = three.as_unitset(&UnitSet::from(ua.clone())).map(f64::from);
+    let via_unit = three.as_unit(ua).map(f64::from);
     assert!(via_set == via_unit, "as_unitset agrees with as_unit on plain units");
+}
+macro_rules! pair {
+    ($name:ident, $a:ident, $b:ident) => {
+        #[kani::proof]
+        #[kani::unwind(4)]
+        fn $name() {
+            cmp_pair(Unit::$a, Unit::$b);
+        }
+    };
+}
+pair!(c11_numeric_cmp_in_cm, In, Cm);
+pair!(c11_numeric_cmp_px_in, Px, In);
+pair!(c11_numeric_cmp_pt_mm, Pt, Mm);
+pair!(c11_numeric_cmp_deg_rad, Deg, Rad);
+pair!(c11_numeric_cmp_turn_grad, Turn, Grad);
+pair!(c11_numeric_cmp_s_ms, S, Ms);
+pair!(c11_numeric_cmp_khz_hz, Khz, Hz);
+pair!(c11_numeric_cmp_dppx_dpi, Dppx, Dpi);
+pair!(c11_numeric_cmp_px_deg, Px, Deg);
+pair!(c11_numeric_cmp_px_rem, Px, Rem);
+pair!(c11_numeric_cmp_vw_vh, Vw, Vh);
+pair!(c11_numeric_cmp_s_hz, S, Hz);
+pair!(c11_numeric_cmp_percent_px, Percent, Px);
+
+/// C11: "a unitless operand takes the other operand's unit" also against `%`
+/// and `fr` (which share rsass's "no dimension" class with unitless): plain
+/// value comparison, no rescaling.
+#[kani::proof]
+#[kani::unwind(4)]
+fn c11_numeric_unitless_vs_percent() {
+    let one = Numeric::scalar(1.0);
+    let fifty = Numeric::new(50.0, UnitSet::from(Unit::Percent));
+    assert!(one.partial_cmp(&fifty) == Some(Ordering::Less), "1 < 50%");
+    assert!(fifty.partial_cmp(&one) == Some(Ordering::Greater), "50% > 1");
+    let hundred = Numeric::new(100.0, UnitSet::from(Unit::Percent));
+    assert!(!(one == hundred) && !(hundred == one), "1 is not 100%");
+    let fr = Numeric::new(2.0, UnitSet::from(Unit::Fr));
+    assert!(Numeric::scalar(1.0).partial_cmp(&fr) == Some(Ordering::Less), "1 < 2fr");
 }
